@@ -58,3 +58,15 @@ Proof.
   - apply byte_ok_iff. auto.
   - apply byte_ok_iff. auto.
 Qed.
+
+(* inversion lemmas that do not reduce the terms (unlike [inversion] / [injection]) *)
+Lemma some_inv : forall (A : Type) (a a' : A), Some a = Some a' -> a = a'.
+Proof. intros. congruence. Qed.
+Lemma pair_inv : forall (A B : Type) (a a' : A) (b b' : B), (a, b) = (a', b') -> a = a' /\ b = b'.
+Proof. intros. split; congruence. Qed.
+Lemma some_pair_inv : forall (A B : Type) (a a' : A) (b b' : B),
+  Some (a, b) = Some (a', b') -> a = a' /\ b = b'.
+Proof. intros. split; congruence. Qed.
+Lemma some_quad_inv : forall (A B C D : Type) (a a' : A) (b b' : B) (c c' : C) (d d' : D),
+  Some (a, b, c, d) = Some (a', b', c', d') -> a = a' /\ b = b' /\ c = c' /\ d = d'.
+Proof. intros. repeat split; congruence. Qed.
